@@ -174,13 +174,18 @@ def oracle_c06(line, case, stats, allc, lines):
         if hv != {k: s for k, s in base_view.items()}:
             errs.append('events seen by H change when observers %s are added' % [t for t in l.split(' ') if t not in line.split(' ') and not t.startswith('ops=')][1:])
         if [x for x in o if x[0] in keys] != base_order: errs.append('order of H events changes when observers are added (member %d)' % j)
-        if total_out(c) != base_out: errs.append('output changes when observers are added (member %d)' % j)
-        if obslog.p_results(c) != obslog.p_results(case): errs.append('results change when observers are added (member %d)' % j)
+        # strict mode: the tag scanner raises ParsingAmbiguity at the tag NAME, the lexer at the end of the tag (known finding)
+        amb = ' [strict-amb-timing]' if (flag(kv(line), 'strict') and ('err:amb' in obslog.p_results(c) or 'err:amb' in obslog.p_results(case))) else ''
+        if total_out(c) != base_out: errs.append('output changes when observers are added (member %d)%s' % (j, amb))
+        if obslog.p_results(c) != obslog.p_results(case): errs.append('results change when observers are added (member %d)%s' % (j, amb))
         j += 1
     stats['pairs'] = stats.get('pairs', 0) + j - 1
     return errs[:3]
 
 # ------------------------------------------------------------------------------------------------
+def classify_c06(line, case, msg):
+    return 'StrictAmbiguityTiming' if '[strict-amb-timing]' in msg else None
+
 def oracle_c09(line, case, stats, allc, lines):
     errs = []
     cid = case['id']; g = group_of(cid)
@@ -810,7 +815,57 @@ def _l3_stats(case, stats):
                 k, _, v = kvp.partition('=')
                 if k == 'enc': stats.setdefault('encodings', set()).add(v)
                 elif v.isdigit(): stats['l3_' + k] = stats.get('l3_' + k, 0) + int(v)
+def _sk_escape(b, ct):
+    return b if ct == 'h' else b.replace(b'&', b'&amp;').replace(b'<', b'&lt;').replace(b'>', b'&gt;')
+def oracle_c13_sk(line, case, stats):
+    """streaming sink scripts against Python's incremental UTF-8 decoder: every fragment of a stream that is valid so far is accepted,
+    the first fragment that makes it invalid is refused, and the output is the text written so far (escaped for Text content)"""
+    d = kv(line); ct = d.get('ct', 'h')
+    ops = [o for o in d.get('ops', '').split(',') if o]
+    # the WHATWG UTF-8 decoder as an eager validator (a byte that cannot continue the sequence is an error at once)
+    pend = b''; need = 0; lo, hi = 0x80, 0xBF
+    exp_res, exp_out, failed = [], b'', False
+    for o in ops:
+        b = bytes.fromhex(o[1:])
+        if o[0] == 's':
+            if pend: exp_out += '\ufffd'.encode(); pend = b''; need = 0
+            exp_out += _sk_escape(b, ct); exp_res.append('k')
+        else:
+            done = b''; bad = False
+            for x in b:
+                if need == 0:
+                    if x < 0x80: done += bytes([x])
+                    elif 0xC2 <= x <= 0xDF: need, pend, lo, hi = 1, bytes([x]), 0x80, 0xBF
+                    elif 0xE0 <= x <= 0xEF: need, pend = 2, bytes([x]); lo, hi = (0xA0 if x == 0xE0 else 0x80), (0x9F if x == 0xED else 0xBF)
+                    elif 0xF0 <= x <= 0xF4: need, pend = 3, bytes([x]); lo, hi = (0x90 if x == 0xF0 else 0x80), (0x8F if x == 0xF4 else 0xBF)
+                    else: bad = True; break
+                else:
+                    if not (lo <= x <= hi): bad = True; break
+                    lo, hi = 0x80, 0xBF; pend += bytes([x]); need -= 1
+                    if need == 0: done += pend; pend = b''
+            if bad: exp_res.append('e'); failed = True; break
+            exp_res.append('k'); exp_out += _sk_escape(done, ct)
+    got_res = [e.split(' ')[2] for c in case['calls'] for e in c['events'] if e.startswith('K ')]
+    got_out = bytes.fromhex(total_out(case))
+    stats['sink_scripts'] = stats.get('sink_scripts', 0) + 1
+    if failed: stats['sink_scripts_refused'] = stats.get('sink_scripts_refused', 0) + 1
+    errs = []
+    if failed:
+        # the code notices a byte that cannot continue a buffered character only when that character's length is reached
+        # (IncompleteUtf8Resync absorbs continuation bytes first): the refusal may come up to three bytes later, never earlier
+        i = len(exp_res) - 1
+        late = sum(len(o) // 2 for o in ops[i:i + len(got_res) - i] if o[0] == 'u')
+        if got_res[:i] != ['k'] * i: errs.append('a write of a still valid stream was refused: results %s, reference %s' % (''.join(got_res), ''.join(exp_res)))
+        elif 'e' not in got_res and any(o[0] == 's' for o in ops[i:]): errs.append('an invalid stream was accepted up to a write_str: results %s, reference %s' % (''.join(got_res), ''.join(exp_res)))
+        elif 'e' not in got_res and sum(len(o) // 2 for o in ops[i:]) > 3: errs.append('an invalid stream was accepted: results %s, reference %s' % (''.join(got_res), ''.join(exp_res)))
+        elif not got_out.startswith(exp_out): errs.append('sink output before the refused write %r, reference %r' % (got_out[:80], exp_out[:80]))
+        return errs
+    if got_res != exp_res: errs.append('write results %s, reference (UTF-8 validator) %s' % (''.join(got_res), ''.join(exp_res)))
+    elif not failed and got_out != exp_out: errs.append('sink output %r, reference %r' % (got_out[:80], exp_out[:80]))
+    elif failed and not (got_out.startswith(exp_out) and len(got_out) - len(exp_out) <= 5): errs.append('sink output before the refused write %r, reference %r' % (got_out[:80], exp_out[:80]))
+    return errs
 def oracle_c13(line, case, stats, allc=None, lines=None):
+    if line.startswith('SK '): return oracle_c13_sk(line, case, stats)
     if not line.startswith('L3 '): return []
     _l3_stats(case, stats)
     if isinstance(stats.get('encodings'), set): stats['encodings_seen'] = len(stats['encodings'])
